@@ -12,7 +12,7 @@ pub struct C07;
 impl Prop for C07 {
     fn id(&self) -> &'static str { "C07" }
     fn rule(&self) -> String {
-        "library with randomness left to the implementation: batches of N identical key_encrypt calls (same keys, same plaintext; N = 24 quick / 400 thorough) — ephemeral public keys (bytes 4..36) pairwise distinct, \
+        "library with randomness left to the implementation: batches of N identical key_encrypt calls on one thread (same keys, same plaintext; N = 150 quick / 400 thorough; also with the payload key given by the caller and only the ephemeral key left to the library) — ephemeral public keys (bytes 4..36) pairwise distinct, \
          payload key and file key of every file recovered by the Lean decryptor and pairwise distinct, none equal to an input or to zero; N PrivateKey::generate and secure_random(32) values pairwise distinct; \
          the real binary: batches of identical `password encrypt`, `encrypt`, `key generate`, `key change-pass` invocations — salts / ephemeral keys / file keys / private keys pairwise distinct; nonce discipline through the hook: for multi-chunk streams (cs in {1,2,4}, 1..6 chunks) record i opens in the model under nonce i and under no other nonce 0..n. \
          non-trivial = distinct (batch / stream shape)".into()
@@ -21,7 +21,9 @@ impl Prop for C07 {
         let th = tier == "thorough";
         let mut rng = Rng::new(seed ^ 0xC07);
         let mut v = vec![];
-        for b in 0..(if th { 6 } else { 3 }) { v.push(case(&[("kind", "batch".into()), ("n", (if th { 400 } else { 24 }).to_string()), ("plen", (*[0usize, 13, 70000].get(b % 3).unwrap()).to_string()), ("seed", rng.next().to_string())])); }
+        for b in 0..(if th { 6 } else { 3 }) { v.push(case(&[("kind", "batch".into()), ("n", (if th { 400 } else { 150 }).to_string()), ("plen", (*[0usize, 13, 70000].get(b % 3).unwrap()).to_string()), ("seed", rng.next().to_string())])); }
+        // the caller brings the payload key (the same one every time) and leaves only the ephemeral key to the library
+        for _ in 0..(if th { 3 } else { 1 }) { v.push(case(&[("kind", "batch".into()), ("given", "payload".into()), ("n", (if th { 400 } else { 150 }).to_string()), ("plen", "13".into()), ("seed", rng.next().to_string())])); }
         v.push(case(&[("kind", "generate".into()), ("n", (if th { 5000 } else { 300 }).to_string())]));
         for what in ["pass-encrypt", "encrypt", "key-generate", "change-pass", "change-pass-same"] { v.push(case(&[("kind", "cli".into()), ("what", what.into()), ("n", (if th { 120 } else { 16 }).to_string()), ("seed", rng.next().to_string())])); }
         for &cs in &[1usize, 2, 4] { for n in 1..=6usize { for rep in 0..(if th { 6 } else { 2 }) {
@@ -40,9 +42,10 @@ impl Prop for C07 {
                 let p = rng.bytes(getn(c, "plen")); let n = getn(c, "n");
                 let (mut eph, mut pks, mut fks) = (HashSet::new(), HashSet::new(), HashSet::new());
                 let inputs: Vec<Vec<u8>> = vec![s.clone(), r.clone(), spk.clone(), rpk.clone(), vec![0u8; 32]];
-                o.nontrivial = Some(format!("batch/{}/{}", n, get(c, "seed")));
+                let given = get(c, "given") == "payload"; let given_pk = rng.bytes(32);
+                o.nontrivial = Some(format!("batch/{}/{}/{}", n, get(c, "given"), get(c, "seed")));
                 for i in 0..n {
-                    let f = imp::key_encrypt(&s, &spk, &rpk, None, None, &p, &NOSCRIPT);
+                    let f = imp::key_encrypt(&s, &spk, &rpk, None, if given { Some(&given_pk) } else { None }, &p, &NOSCRIPT);
                     if f.res != "ok" || f.out.len() < 132 { o.oracle_fail = Some(("encrypt-succeeds".into(), f.res)); return o; }
                     let e = f.out[4..36].to_vec();
                     let resp = m.ask(&format!("key_open {} {} {}", hex(&r), hex(&rpk), hex(&f.out[..132]))); o.validated += 1;
@@ -53,7 +56,8 @@ impl Prop for C07 {
                         if inputs.contains(val) { o.oracle_fail = Some(("fresh-value-not-an-input".into(), format!("file {}: the {} equals one of the inputs / zero", i, what))); return o; }
                     }
                     if !eph.insert(e) { o.oracle_fail = Some(("ephemeral-key-fresh".into(), format!("two of {} identical encryptions share the ephemeral key (file {})", n, i))); return o; }
-                    if !pks.insert(pk) { o.oracle_fail = Some(("payload-key-fresh".into(), format!("two of {} identical encryptions share the payload key (file {})", n, i))); return o; }
+                    if given { if pk != given_pk { o.oracle_fail = Some(("given-payload-key-used".into(), format!("file {}: the payload key in the handshake is not the one the caller gave", i))); return o; } }
+                    else if !pks.insert(pk) { o.oracle_fail = Some(("payload-key-fresh".into(), format!("two of {} identical encryptions share the payload key (file {})", n, i))); return o; }
                     if !fks.insert(fk) { o.oracle_fail = Some(("file-key-fresh".into(), format!("two of {} identical encryptions share the file key (file {})", n, i))); return o; }
                 }
                 o.impl_obs = format!("{} files: {} ephemeral, {} payload, {} file keys, all distinct", n, eph.len(), pks.len(), fks.len()); o.model_obs = "opened every header".into();
